@@ -18,9 +18,10 @@ GAMMAS = {
     "g3": {"k1": "a/b", "k2": "a", "z1": "p:q", "a1": "r s", "z2": "p", "a2": "q=r", "t1": "a/b", "t2": "b", "t3": "a"},
 }
 
-def L(id, elems, typ, vals, entry=None, key=None, choice=None, case=None, default=None, kind="leaf", ns=None, state=False, fam=()):
+def L(id, elems, typ, vals, entry=None, key=None, choice=None, case=None, default=None, kind="leaf", ns=None, state=False, fam=(), bad=()):
+    # bad: [[datum, constraint class]] values that violate a leaf-local constraint (range, length, pattern, maxelements)
     return dict(id=id, elems=elems, type=typ, vals=vals, entry=entry, key=key, choice=choice, case=case,
-                default=default, kind=kind, state=state, fam=list(fam))
+                default=default, kind=kind, state=state, fam=list(fam), bad=[list(b) for b in bad])
 
 def item(k): return ["item", [["name", "$" + k]]]
 PAIR1 = ["pair", [["zone", "$z1"], ["app", "$a1"]]]
@@ -33,12 +34,12 @@ LEAVES = [
     L("i1.name", [item("k1"), ["name", []]], "string", ["key"], entry="i1", key="k1", fam=["core", "choice", "dflt", "valid"]),
     L("i1.val", [item("k1"), ["val", []]], "string", S, entry="i1", fam=["core", "dflt"]),
     L("i1.y_val", [item("k1"), ["y_val", []]], "string", S, entry="i1", fam=["core"]),
-    L("i1.mtu", [item("k1"), ["mtu", []]], "uint16", ["u:1500", "u:9000"], entry="i1", fam=["valid"]),
+    L("i1.mtu", [item("k1"), ["mtu", []]], "uint16", ["u:1500", "u:9000"], entry="i1", fam=["valid"], bad=[["u:10", "range"]]),
     L("i1.mode", [item("k1"), ["mode", []]], "enumeration", ["en:on", "en:off"], entry="i1", default="en:on", fam=["dflt"]),
     L("i1.tcp", [item("k1"), ["tcp-port", []]], "uint16", ["u:80", "u:81"], entry="i1", choice="i1.transport", case="tcp", fam=["choice"]),
     L("i1.udp", [item("k1"), ["udp-port", []]], "uint16", ["u:53", "u:54"], entry="i1", choice="i1.transport", case="udp", fam=["choice"]),
     L("i1.xval", [item("k1"), ["xval", []]], "string", S, entry="i1", fam=["ns"]),
-    L("i2.name", [item("k2"), ["name", []]], "string", ["key"], entry="i2", key="k2", fam=["core"]),
+    L("i2.name", [item("k2"), ["name", []]], "string", ["key"], entry="i2", key="k2", fam=["core", "valid"]),
     L("i2.val", [item("k2"), ["val", []]], "string", S, entry="i2", fam=["core"]),
     # two-key list, keys declared non-alphabetically
     L("p1.zone", [PAIR1, ["zone", []]], "string", ["key"], entry="p1", key="z1", fam=["mkey"]),
@@ -55,14 +56,14 @@ LEAVES = [
     L("pl.a", [["plain", []], ["a", []]], "string", S, fam=["core", "choice", "mkey"]),
     L("pl.ab", [["plain", []], ["ab", []]], "string", S, fam=["core"]),
     L("pl.s", [["plain", []], ["sub", []], ["s", []]], "string", S, fam=["core"]),
-    L("pl.n", [["plain", []], ["n", []]], "uint16", ["u:1", "u:10"], fam=["valid"]),
+    L("pl.n", [["plain", []], ["n", []]], "uint16", ["u:1", "u:10"], fam=["valid"], bad=[["u:11", "range"]]),
     # sys: constraints, defaults, presence, second namespace
-    L("s.host", [["sys", []], ["host", []]], "string", ["s:abc", "s:h2"], fam=["valid", "dflt"]),
+    L("s.host", [["sys", []], ["host", []]], "string", ["s:abc", "s:h2"], fam=["valid", "dflt"], bad=[["s:abcdefghij", "length"], ["s:1abc", "pattern"]]),
     L("s.hostname", [["sys", []], ["hostname", []]], "string", S, fam=["valid"]),
     L("s.desc", [["sys", []], ["desc", []]], "string", ["s:none", "s:d"], default="s:none", fam=["dflt"]),
     L("s.primary", [["sys", []], ["primary", []]], "leafref", ["s:$k1", "s:$k2"], fam=["valid"]),
     L("s.guard", [["sys", []], ["guard", []]], "boolean", ["b:true", "b:false"], fam=["valid"]),
-    L("s.tags", [["sys", []], ["tags", []]], "leaf-list:string", ["ll:s:t1", "ll:s:t1|s:t2"], kind="leaflist", fam=["valid"]),
+    L("s.tags", [["sys", []], ["tags", []]], "leaf-list:string", ["ll:s:t1", "ll:s:t1|s:t2"], kind="leaflist", fam=["valid"], bad=[["ll:s:t1|s:t2|s:t3", "maxelements"]]),
     L("s.feat", [["sys", []], ["feat", []]], "presence", ["e:"], kind="presence", fam=["dflt"]),
     L("s.feat.level", [["sys", []], ["feat", []], ["level", []]], "uint8", ["u:1", "u:2"], default="u:1", fam=["dflt"]),
     L("s.svc", [["sys", []], ["svc", []]], "presence", ["e:"], kind="presence", fam=["valid"]),
@@ -106,6 +107,7 @@ def main():
                " [] ".join("l = %s -> %s" % (tla_str(l["id"]), tla_str(l["case"] or "-")) for l in LEAVES) + "]")
     out.append("UVals == [l \\in AllLeaf |-> CASE " +
                " [] ".join("l = %s -> %s" % (tla_str(l["id"]), tla_set(l["vals"])) for l in LEAVES) + "]")
+    out.append("UBad == {" + ", ".join("<<%s, %s, %s>>" % (tla_str(l["id"]), tla_str(b[0]), tla_str(b[1])) for l in LEAVES for b in l["bad"]) + "}")
     out.append("UDefault == [l \\in AllLeaf |-> CASE " +
                " [] ".join("l = %s -> %s" % (tla_str(l["id"]), tla_str(l["default"] or "-")) for l in LEAVES) + "]")
     for fam in fams:
